@@ -1165,6 +1165,12 @@ func (broker *Broker) startTrack(wg *sync.WaitGroup) {
 				}
 				pFile = progress[key]
 			} else if pFile.hash != binned.GetFileHash() {
+				if cached := broker.Conf.Cache.Get(key); cached != nil && cached.GetHash() == pFile.hash {
+					// A straggler of a version that has been replaced since:
+					// payloads complete out of order, and letting it restart
+					// the count would leave the current version short forever
+					continue
+				}
 				pFile.sent = 0
 				pFile.size = binned.GetSendSize()
 				pFile.started = payload.GetStarted()
